@@ -20,6 +20,7 @@ import (
 const (
 	pipeBatches = 14
 	tcpBatches  = 2
+	agedBatches = 2
 )
 
 func main() {
@@ -32,13 +33,18 @@ func main() {
 			"through a modifier-less martian.Proxy to a scripted raw origin; the origin-side and client-side byte streams are parsed by the harness's own HTTP/1 parser and compared field by field with the generating specs",
 		Assumptions: []string{
 			"the origin uses Content-Encoding only when the client itself sent Accept-Encoding with gzip (keeps http.Transport's transparent gzip out of the picture)",
-			"not generated (not claimed by C01): Expect/100-continue, 1xx, Upgrade/101, trailers, HTTP/1.0 keep-alive, chunked HTTP/1.0 requests, empty or repeated User-Agent, Host differing from the target authority",
+			"not generated (not claimed by C01): Expect/100-continue, 1xx, Upgrade/101, trailers, chunked HTTP/1.0 requests, empty or repeated User-Agent, Host differing from the target authority",
 			"headers the proxy's transport adds (User-Agent, Accept-Encoding: gzip, Cache-Control for Pragma: no-cache) are allowed: only headers the client/origin sent are compared",
 			"hop-by-hop and framing headers are not compared as headers; body bytes are; HEAD responses must carry the origin's Content-Length when it is > 0",
-			"the origin never closes a connection it did not announce as closing (unannounced upstream failures are C03)",
+			"the origin closes unannounced only in the 'hangs up without answering' exchanges; there the response content is left to C03 and only one-response, not-resent (POST/PATCH) and connection-goes-on are judged",
+			"aged-upstream cases use Proxy.SetTimeout(2s) and real sleeps; a case whose schedule was not kept by the harness (response later than 0.9 x timeout after the previous request was sent, i.e. possibly inside martian's own client deadline) is voided, never judged",
 		},
 		Plan: func(tier string, seed int64) []vh.Batch {
 			var bs []vh.Batch
+			// first, so that their sleeps overlap with everything else
+			for i := 0; i < agedBatches; i++ {
+				bs = append(bs, vh.Batch{Name: fmt.Sprintf("aged-%d", i), TimeoutS: 1500})
+			}
 			for i := 0; i < pipeBatches; i++ {
 				bs = append(bs, vh.Batch{Name: fmt.Sprintf("pipe-%d", i), TimeoutS: 1500})
 			}
@@ -61,6 +67,10 @@ type connCase struct {
 }
 
 func run(r *vh.Run, batch string) {
+	if strings.HasPrefix(batch, "aged-") {
+		runAgedBatch(r, batch)
+		return
+	}
 	tcp := strings.HasPrefix(batch, "tcp-")
 	n := r.Pick(250, 3000)
 	if tcp {
@@ -79,6 +89,10 @@ func run(r *vh.Run, batch string) {
 
 func replay(r *vh.Run, raw json.RawMessage) {
 	var c connCase
+	if err := json.Unmarshal(raw, &c); err == nil && c.Kind == "aged" {
+		runAgedCase(r, c)
+		return
+	}
 	if err := json.Unmarshal(raw, &c); err != nil || c.Kind != "conn" {
 		r.Inconclusive("unreplayable case", string(raw))
 		return
@@ -110,6 +124,9 @@ func runCase(r *vh.Run, c connCase) {
 			unknown = append(unknown, m.Method+" "+m.Target)
 			umu.Unlock()
 			return h1x.Action{Write: []byte("HTTP/1.1 500 Unknown Id\r\nContent-Length: 0\r\nConnection: close\r\n\r\n"), Close: true}
+		}
+		if p.Reqs[id].HangUp {
+			return h1x.Action{Close: true}
 		}
 		s := p.Ress[id]
 		b := renderResponse(s)
